@@ -172,7 +172,7 @@ def run(ck):
         for sw in T.switches_on_expr(lb, lambda e: e[0] == "discr"):
             if sw not in dl.blocks and sw not in after_pe0:
                 continue
-            e = lb.expr(lb.blocks[sw]["term"]["on"])
+            e = lb.expr(lb.blocks[sw]["term"]["on"], at=sw)
             if any(r == ("call", g.bb) and ".source" in p and p[-1] in (".source", "*") for r, p in lb.resolve(e[2])):
                 e_empty += T.discr_edges(lb, sw, 0)
         for u in unregs:
